@@ -11,9 +11,9 @@ Open Scope string_scope. Open Scope list_scope. Open Scope nat_scope.
 Definition render_claim (fx : fixes) (top : nat) (e : pyexpr) : Prop :=
   exists g, build fx [] ctx0 e = Some g /\ render fx g = ref_top top e.
 
-(* e is in gap family fam of the printer without repairs, and the claim fails there *)
-Definition refutes (fam : nat) (e : pyexpr) : Prop :=
-  wf e = true /\ In fam (gaps_top fx_none P_TEST e) /\ ~ render_claim fx_none P_TEST e.
+(* e is in gap family fam of the printer fx, and the claim fails there *)
+Definition refutes (fx : fixes) (fam : nat) (e : pyexpr) : Prop :=
+  wf e = true /\ In fam (gaps_top fx P_TEST e) /\ ~ render_claim fx P_TEST e.
 
 Ltac refute :=
   split; [reflexivity|split; [vm_compute; tauto|]];
@@ -23,36 +23,32 @@ Ltac refute :=
 Definition a := PName "a" false. Definition b := PName "b" false. Definition c := PName "c" false.
 Definition comp1 := PComprehension (PName "x" false) (PName "y" false) [] false.
 
-(* (a + b) * c  ->  a + b * c *)
-Definition w_F1 := PBinOp (PBinOp a B_Add b) B_Mult c.
-Lemma refuted_F1 : refutes G_GROUP w_F1. Proof. refute. Qed.
-(* f'{a}{'{'}' : literal brace not doubled *)
-Definition w_F3 := PJoinedStr [PFormattedValue a (-1) None; PStr "'{'" "{" None].
-Lemma refuted_F3 : refutes G_FSTRING w_F3. Proof. refute. Qed.
-(* f'{a!r:>{b}}'  ->  f'{a}' : conversion and format spec dropped *)
-Definition w_F3b := PJoinedStr [PFormattedValue a 114 (Some (PJoinedStr [PStr "'>'" ">" None; PFormattedValue b (-1) None]))].
-Lemma refuted_F3b : refutes G_FSTRING w_F3b. Proof. refute. Qed.
-(* lambda *a, k: 0  ->  lambda *a, *, k: 0 *)
-Definition w_F4 := PLambda [] [] (Some "a") [PParam "k" None] None (PNum true "0").
-Lemma refuted_F4 : refutes G_LAMBDA w_F4. Proof. refute. Qed.
-(* lambda p, /: 0  ->  lambda p: 0 *)
-Definition w_F4b := PLambda [PParam "p" None] [] None [] None (PNum true "0").
-Lemma refuted_F4b : refutes G_LAMBDA w_F4b. Proof. refute. Qed.
-(* (x for x in y)  ->  x for x in y *)
-Definition w_F6 := PGeneratorExp (PName "x" false) [comp1].
-Lemma refuted_F6 : refutes G_GENEXP w_F6. Proof. refute. Qed.
-(* a[()]  ->  a[] *)
-Definition w_F7 := PSubscript a false (PTuple []).
-Lemma refuted_F7 : refutes G_EMPTY_SLICE_TUPLE w_F7. Proof. refute. Qed.
-(* [(yield)]  ->  [yield] *)
-Definition w_F8 := PList [PYield None].
-Lemma refuted_F8 : refutes G_YIELD w_F8. Proof. refute. Qed.
-(* (1).real  ->  1.real *)
-Definition w_F9 := PAttribute (PNum true "1") "real".
-Lemma refuted_F9 : refutes G_INT_ATTR w_F9. Proof. refute. Qed.
+(* the two gap families that remain in the tree (every repair present): *)
+(* a bare yield stored from a position that needs an expression (a default, an annotation): `yield` instead of `(yield)` *)
+Definition w_F8 := PYield None.
+Lemma refuted_F8 : refutes fx_all G_YIELD w_F8. Proof. refute. Qed.
 (* f(await x): nothing is stored *)
 Definition w_F10 := PCall (PName "f" false) [PAwait (PName "x" false)] [].
-Lemma refuted_F10 : refutes G_AWAIT w_F10. Proof. refute. Qed.
+Lemma refuted_F10 : refutes fx_all G_AWAIT w_F10. Proof. refute. Qed.
+
+(* regression examples: the witnesses of the repaired defects.  Each is in its gap family and refutes the claim for the
+   printer WITHOUT the repairs (fx_none), and is gap-free and renders as the reference printer does WITH them (below) *)
+Definition w_F1 := PBinOp (PBinOp a B_Add b) B_Mult c.                                   (* (a + b) * c  ->  a + b * c *)
+Definition w_F3 := PJoinedStr [PFormattedValue a (-1) None; PStr "'{'" "{" None].          (* literal brace not doubled *)
+Definition w_F3b := PJoinedStr [PFormattedValue a 114 (Some (PJoinedStr [PStr "'>'" ">" None; PFormattedValue b (-1) None]))].
+Definition w_F4 := PLambda [] [] (Some "a") [PParam "k" None] None (PNum true "0").          (* lambda *a, k: 0 -> lambda *a, *, k: 0 *)
+Definition w_F4b := PLambda [PParam "p" None] [] None [] None (PNum true "0").               (* lambda p, /: 0 -> lambda p: 0 *)
+Definition w_F6 := PGeneratorExp (PName "x" false) [comp1].                                  (* (x for x in y) -> x for x in y *)
+Definition w_F7 := PSubscript a false (PTuple []).                                           (* a[()] -> a[] *)
+Definition w_F8op := PList [PYield None].                                                    (* [(yield)] -> [yield] *)
+Definition w_F9 := PAttribute (PNum true "1") "real".                                        (* (1).real -> 1.real *)
+Example unrepaired_printer_refuted :
+  refutes fx_none G_GROUP w_F1 /\ refutes fx_none G_FSTRING w_F3 /\ refutes fx_none G_FSTRING w_F3b /\
+  refutes fx_none G_LAMBDA w_F4 /\ refutes fx_none G_LAMBDA w_F4b /\ refutes fx_none G_GENEXP w_F6 /\
+  refutes fx_none G_EMPTY_SLICE_TUPLE w_F7 /\ refutes fx_none G_YIELD w_F8op /\ refutes fx_none G_INT_ATTR w_F9.
+Proof. repeat split; try reflexivity; try (vm_compute; tauto);
+  (let g := fresh "g" in let B := fresh "B" in let R := fresh "R" in
+   intros [g [B R]]; vm_compute in B; first [discriminate B | inversion B; subst; vm_compute in R; discriminate R]). Qed.
 
 (* F14: f().typing.Literal["int"] -- the unrepaired _build_subscript takes the chain for typing.Literal and keeps the string,
    although the rule (and the repaired code) parses it *)
@@ -74,19 +70,23 @@ Definition w_F11 := PSubscript a false (PCall (PName "f" false) [PTuple [PNum tr
 Definition w_F12 := PList [PNum false "inf"; PNum false "infj"; PNum false "1.5"; PNum true "7"].
 Example repaired_witnesses_gapfree :
   forallb (fun e => wf e && negb (known_gap fx_all P_TEST e))
-          [w_F1; w_F3; w_F3b; w_F4; w_F4b; w_F6; w_F7; w_F8; w_F9; w_F2; w_F5; w_F11; w_F12] = true
+          [w_F1; w_F3; w_F3b; w_F4; w_F4b; w_F6; w_F7; w_F8op; w_F9; w_F2; w_F5; w_F11; w_F12] = true
   /\ forallb (fun e => wf e && negb (known_gap fx_none P_TEST e)) [w_F2; w_F5; w_F11; w_F12] = true.
 Proof. split; reflexivity. Qed.
 Example repaired_witnesses_text :
-  map (fun e => option_map (render fx_all) (build fx_all [] ctx0 e)) [w_F1; w_F3; w_F3b; w_F4; w_F4b; w_F6; w_F7; w_F8; w_F9]
+  map (fun e => option_map (render fx_all) (build fx_all [] ctx0 e)) [w_F1; w_F3; w_F3b; w_F4; w_F4b; w_F6; w_F7; w_F8op; w_F9]
   = [Some "(a + b) * c"; Some "f'{a}{{'"; Some "f'{a!r:>{b}}'"; Some "lambda *a, k: 0"; Some "lambda p, /: 0";
      Some "(x for x in y)"; Some "a[()]"; Some "[(yield)]"; Some "(1).real"]
   /\ map (fun e => option_map (render fx_none) (build fx_none [] ctx0 e)) [w_F2; w_F5; w_F11; w_F12]
   = [Some "{**a}"; Some "{a: b for x in y}"; Some "a[f((1, 2))]"; Some "[1e309, 1e309j, 1.5, 7]"].
 Proof. split; reflexivity. Qed.
 
-Theorem render_claim_refuted : exists e, wf e = true /\ ~ render_claim fx_none P_TEST e.
-Proof. exists w_F1. destruct refuted_F1 as [H [_ H']]. split; assumption. Qed.
+Theorem render_claim_refuted : exists e, wf e = true /\ ~ render_claim fx_all P_TEST e.
+Proof. exists w_F10. destruct refuted_F10 as [H [_ H']]. split; assumption. Qed.
+
+(* (T) the tree under test contains every repair: the theorems for fx_all are theorems about it *)
+Lemma tree_is_repaired : tree_fixes = fx_all.
+Proof. reflexivity. Qed.
 
 (* ---------- the hypotheses are satisfiable by non-trivial inputs ---------- *)
 (* an if-expression over a subscript with slice, a comparison, and a call with starred argument and a lambda keyword: gap-free
